@@ -17,6 +17,16 @@ CHECKS = {
         design='7 (C01), 4.1 T1'),
 }
 
+CHECKS['C03'] = dict(
+    technique='Lean 4 theorems on the spec of bounded repetition/Sep (bounds, greediness, trailer, allow_empty, require_separator) + the C01 refinement theorem + differential correspondence incl. data-dependent bounds',
+    text=('Proof: the List/Sep cases of C01_codegen_refines_peg (code model computes the documented meaning for every locally sound flag table, '
+          're-proved for the table extracted from /repo), plus C03_len_bounds, C03_sep_trailer, C03_sep_allow_empty, C03_sep_require_separator, '
+          'C03_sep_keeps_separators, C03_no_effect_on_failure about the specification. Correspondence: element x bounds x Sep option sets x contexts x all short inputs; '
+          'data-dependent bounds (let-bound, rule parameter, parsed digit) are compared on the implementation against the static spelling the model decides.'),
+    note=('Trusted as for C01. Data-dependent bounds are not in the Lean expression type yet: they are tied to the proved static case by a metamorphic '
+          'run on the implementation only.'),
+    design='7 (C03)')
+
 NOT_YET = {
 }
 
